@@ -6,6 +6,7 @@ CONSTANTS
   ClearChoices = {TRUE, FALSE}
   Installs = {TRUE}
   ResetsResult = FALSE
+  RunBound = TRUE
   LateIgnored = TRUE
 INVARIANT SecondRun
 CHECK_DEADLOCK FALSE
